@@ -20,7 +20,7 @@ def erase_note_hook(P, n):
     return None
 
 
-def boost_targets():
+def boost_fns():
     nparams = lambda k: (lambda d: len([c for c in d['inner'] if c['kind'] == 'ParmVarDecl']) == k)
     calls = [(r'^mean_error\|', 'nv_mean_any'), (r'^mean_loss\|', 'nv_mean_any'),
              (r'^operator\(\)\|.*tensor_vector_storage_t, double, 2', '(*nv_t2_at({&0}, {1}, {2}))'),
@@ -37,20 +37,97 @@ def boost_targets():
     kw = dict(self_struct='struct nv_result', types=RTYPES, calls=calls, members=members,
               opaque=[r'unique_ptr<nano::wlearner_t', r'rwlearner_t'])
     u3 = lambda: Fn('result_update3', 'src/gboost/result.cpp', 'update', flt='result_t::update', select=nparams(3), **kw)
-    u4 = Fn('result_update4', 'src/gboost/result.cpp', 'update', flt='result_t::update', select=nparams(4), **kw)
-    dn = Fn('result_done', 'src/gboost/result.cpp', 'done', flt='result_t::done', **kw)
+    u4 = lambda: Fn('result_update4', 'src/gboost/result.cpp', 'update', flt='result_t::update', select=nparams(4), **kw)
+    dn = lambda: Fn('result_done', 'src/gboost/result.cpp', 'done', flt='result_t::done', **kw)
+    return u3, u4, dn
+
+
+def boost_targets():
+    u3, u4, dn = boost_fns()
     H = 'specs/C11/boost.h'
-    return [Target('result_update3', [u3()], H), Target('result_update4', [u4, u3()], H, replace=['result_update3']),
-            Target('result_done', [dn], H)]
+    return [Target('result_update3', [u3()], H), Target('result_update4', [u4(), u3()], H, replace=['result_update3']),
+            Target('result_done', [dn()], H)]
 
 
-def build(tier):
-    done = Fn('early_stopping_done', 'src/gboost/early_stopping.cpp', 'done', flt='early_stopping_t::done',
+# ------------------------------------------------------------------------------------------------ ::fit (round loop)
+NPARAMS = lambda k: (lambda d: len([c for c in d['inner'] if c['kind'] == 'ParmVarDecl']) == k)
+T2 = r'^nano::tensor2d_t$|^nano::tensor_t<nano::tensor_vector_storage_t, double, 2'
+IX = r'^nano::indices_t$|^nano::tensor_t<nano::tensor_vector_storage_t, long, 1'
+FTYPES = [(r'^std::tuple<nano::gboost::result_t, ', 'struct nv_fit_ret'),
+          (r'__normal_iterator<\s*(const )?std::unique_ptr<nano::wlearner_t|^std::vector<std::unique_ptr<nano::wlearner_t>>::(const_)?iterator$', 'int64_t'), (r'^std::tuple<double>$', 'struct nv_tuple_f64'),
+          (r'^std::tuple_element<0, std::tuple<double>>::type$', 'double'),
+          (T2, 'struct nv_tensor2d'), (IX, 'struct nv_indices'),
+          (r'^nano::gboost::result_t$', 'struct nv_result'), (r'^nano::gboost::early_stopping_t$', 'struct nv_early_stopping'),
+          (r'^nano::rwlearners_t$|^std::vector<std::unique_ptr<nano::wlearner_t', 'struct nv_vec'),
+          (r'^nano::solver_state_t$', 'struct nv_state'), (r'^nano::solver_status$', 'int32_t'),
+          (r'^nano::gboost_(wscale|subsample|shrinkage)$', 'int32_t'),
+          (r'^nano::indices_cmap_t$|^nano::tensor_t<nano::tensor_carray_storage_t, long, 1', 'struct nv_indices'),
+          (r'^nano::tensor_t<nano::tensor_(c|m)(map|array)_storage_t, double, 1', 'struct nv_row')]
+# everything numeric: datasets, iterators, samplers, loss / solver / weak learners, outputs, gradients, clusters
+FOPAQUE = [r'^nano::(configurable_t|dataset_t|loss_t|solver_t|logger_t|wlearner_t|cluster_t|targets_iterator_t|sampler_t)$',
+           r'^nano::gboost::(sampler_t|grads_function_t|bias_function_t|scale_function_t)$', r'^nano::function_t$',
+           r'^nano::(tensor1d_t|tensor4d_t|vector_t|tensor1d_cmap_t|rwlearner_t)$', r'^nano::tensor_t<', r'^Eigen::', r'^std::unique_ptr<nano::wlearner_t',
+           r'__normal_iterator<\s*(const )?std::unique_ptr<nano::wlearner_t', r'^nano::tensor_base_t<', r'^std::array<long', r'^nano::tensor_dims_t<']
+FCALLS = [(r'^epsilon\|double \(\)', '(2.220446049250313e-16)'), (r'^max\|double \(\)', '(1.7976931348623157e308)'),
+          (r'^arange\|', 'nv_arange({0}, {1})'), (r'^no_fit_score\|', 'nv_nondet_double()'), (r'^evaluate\|', 'nv_evaluate({&3})'),
+          (r'^ctor\|nano::tensor_t<nano::tensor_vector_storage_t, double, 2>\|void \((int|long), (int|long)\)', 'nv_t2_make({0}, {1})'),
+          (r'^ctor\|nano::gboost::result_t\|', 'nv_result_make({0}, {1}, {2}, {3})'),
+          (r'^ctor\|nano::gboost::early_stopping_t\|void \(nano::tensor2d_t\)', 'nv_monitor_make({0})'),
+          (r'^selected\|', 'model_selected'),
+          (r'^ctor\|nano::tensor_t<nano::tensor_carray_storage_t, long, 1>\|void \(const tensor_t<nano::tensor_vector_storage_t, long, 1', '{0}'),
+          (r'^operator!=\|.*__normal_iterator', '({0} != {1})'), (r'^operator\+\+\|.*__normal_iterator', '(++{0})'), (r'^move\|', '{0}'),
+          (r'^make_tuple\|.*result_t', '(struct nv_fit_ret){ {0}, {1}, {2} }')]
+FMEMBERS = [(r'^minimize\|nano::solver_t', 'nv_solver_minimize()'),
+            (r'^x\|nano::solver_state_t', 'nv_opaque_value()'),
+            (r'^size\|std::vector<std::unique_ptr<nano::wlearner_t', 'nv_vec_size'),
+            (r'^begin\|std::vector<std::unique_ptr<nano::wlearner_t', 'nv_vec_begin'), (r'^end\|std::vector<std::unique_ptr<nano::wlearner_t', 'nv_vec_end'),
+            (r'^size\|.*(indices_t|tensor_vector_storage_t, long, 1|tensor_base_t<long, 1)', 'nv_indices_size'),
+            (r'^update\|nano::gboost::result_t\|#3', 'nv_loop_update3'), (r'^update\|nano::gboost::result_t\|#4', 'nv_loop_update4'),
+            (r'^done\|nano::gboost::result_t', 'result_done'), (r'^done\|nano::gboost::early_stopping_t', 'nv_monitor_done'),
+            (r'^round\|nano::gboost::early_stopping_t', 'early_stopping_round'), (r'^value\|nano::gboost::early_stopping_t', 'early_stopping_value'),
+            (r'^values\|nano::gboost::early_stopping_t', 'early_stopping_values'),
+            (r'^tensor\|.*tensor_vector_storage_t, double, 2.*#1', 'nv_t2_row'),
+            (r'^indexed\|.*tensor_(c|m)(map|array)_storage_t, double, 1', 'nv_row_indexed({*self}, {&0}, {1})')]
+
+
+def fit_fns():
+    import hooks
+    kw = dict(types=FTYPES, calls=FCALLS, members=FMEMBERS, opaque=FOPAQUE, hooks=[hooks.param_hook()], aggregates=['struct nv_fit_ret'])
+    ES, RS = 'src/gboost/early_stopping.cpp', 'src/gboost/result.cpp'
+    mon = dict(kw, self_struct='struct nv_early_stopping')
+    return dict(
+        fit=Fn('gboost_fit', 'src/gboost/model.cpp', 'fit', flt='fit', select=NPARAMS(9), ret='struct nv_fit_ret', **kw),
+        selected=Fn('model_selected', 'src/gboost/model.cpp', 'selected', flt='selected', **kw),
+        rctor=Fn('result_ctor', RS, 'result_t', flt='result_t::result_t', select=NPARAMS(4), **dict(kw, self_struct='struct nv_result')),
+        ector=Fn('early_stopping_ctor', ES, 'early_stopping_t', flt='early_stopping_t::early_stopping_t', select=NPARAMS(1), **mon),
+        eround=Fn('early_stopping_round', ES, 'round', flt='early_stopping_t::round', **mon),
+        evalue=Fn('early_stopping_value', ES, 'value', flt='early_stopping_t::value', **mon),
+        evalues=Fn('early_stopping_values', ES, 'values', flt='early_stopping_t::values', **mon))
+
+
+def fit_targets(done, boost):
+    F = 'specs/C11/fit.h'
+    f = fit_fns()
+    u3, u4, dn = boost
+    return [Target('model_selected', [fit_fns()['selected']], F),
+            Target('result_ctor', [fit_fns()['rctor']], F), Target('early_stopping_ctor', [fit_fns()['ector']], F),
+            Target('early_stopping_round', [fit_fns()['eround']], F), Target('early_stopping_value', [fit_fns()['evalue']], F),
+            Target('early_stopping_values', [fit_fns()['evalues']], F),
+            Target('gboost_fit', [f['fit'], f['selected'], f['rctor'], f['ector'], f['eround'], f['evalues'], done, u3, u4, dn], F,
+                   replace=['early_stopping_done', 'result_update3', 'result_update4', 'result_done'], cbmc_flags=['--object-bits', '9'])]
+
+
+def done_fn():
+    return Fn('early_stopping_done', 'src/gboost/early_stopping.cpp', 'done', flt='early_stopping_t::done',
               self_struct='struct nv_early_stopping', types=TYPES,
               calls=[(r'^mean_error\|', 'nv_mean_error'), (r'^operator=\|.*tensor_vector_storage_t, double, 2', 'nv_tensor2d_assign')],
               members=[(r'^size\|.*std::vector', 'nv_vec_size'), (r'^size\|.*(indices_t|tensor_vector_storage_t, long, 1|tensor_base_t<long, 1)', 'nv_indices_size')])
-    targets = [Target('early_stopping_done', [done], 'specs/C11/early_stopping.h')]
+
+
+def build(tier):
+    targets = [Target('early_stopping_done', [done_fn()], 'specs/C11/early_stopping.h')]
     targets += boost_targets()
+    targets += fit_targets(done_fn(), [f() for f in boost_fns()])
     return {
         'targets': targets, 'vcs': [],
         'decided': ['early-stopping monitor transition = specification, for every observation and prior state'],
